@@ -51,8 +51,8 @@ ASSUMPTIONS = [
     "one client per execution; TLS listeners and server shutdown with live clients are C08/C17/C18's subject",
 ]
 BOUNDS = {
-    "quick": "<= 3 frames, <= 3 cuts, free placement for <= 3 events, otherwise 1 placement deviation",
-    "thorough": "<= 4 frames, <= 3 cuts, free placement for <= 3 chunks, otherwise 2 placement deviations",
+    "quick": "<= 3 frames, <= 3 cuts; placement: ALL placements of <= 2 chunks + disconnect for streams of <= 2 frames, 1 deviation for 3 chunks",
+    "thorough": "<= 4 frames, <= 3 cuts; placement: ALL placements of <= 2 chunks + disconnect (<= 2 frames) and of 3 chunks (2-frame streams), 1 deviation for 3-frame streams",
 }
 
 FRAME_BYTES = {"a": b"a\n", "b": b"bb\n", "c": b"c\n", "X": b"\xff\n"}
@@ -554,32 +554,42 @@ def mk_shapes(ks: tuple, tauss: tuple, ocs: tuple, catches: tuple, acs: tuple, w
             for k in ks for taus in tauss for oc in ocs for catch in catches for ac in acs for work in works]
 
 
-# family -> tier -> plan
-PLAN: dict[str, dict[str, dict]] = {
+# family -> tier -> list of sub-plans
+PLAN: dict[str, dict[str, list[dict]]] = {
     # every chunking x every handler shape; every event is applied when the loop idles (no placement choice)
     "cut": {
-        "quick": dict(maxn=3, extra=False, max_cuts=3, slim_3cuts=True, ends=("eof",), mrs=(None,),
-                      shapes=mk_shapes((1, 2, 0), ((None,), (0, None)), ("coro", "gen"), (True, False), (0, 1, 2), (0,))),
-        "thorough": dict(maxn=4, extra=True, max_cuts=3, slim_3cuts=False, ends=("eof", "reset"), mrs=(None, 3),
-                         shapes=mk_shapes((1, 2, 0), ((None,), (0, None), (TAU,), (None, 0)), ("coro", "gen"), (True, False), (0, 1, 2), (0,))),
+        "quick": [dict(maxn=3, max_cuts=3, slim_from=3, ends=("eof",), mrs=(None,),
+                       shapes=mk_shapes((1, 2, 0), ((None,), (0, None)), ("coro", "gen"), (True, False), (0, 1, 2), (0,)))],
+        "thorough": [dict(maxn=4, extra=True, max_cuts=3, slim_from=4, ends=("eof", "reset"), mrs=(None, 3),
+                          shapes=mk_shapes((1, 2, 0), ((None,), (0, None), (TAU,), (None, 0)), ("coro", "gen"), (True, False), (0, 1, 2), (0,)))],
     },
     # every event placed by the explorer at ANY loop-iteration boundary (free), incl. withholding it until a timeout fired
     "place": {
-        "quick": dict(maxn=2, extra=False, max_chunks=2, free_chunks=2, bound=1, ends=("eof",),
-                      shapes=mk_shapes((1,), ((None,), (TAU,), (0, None)), ("coro",), (True,), (0,), (1,))
-                      + mk_shapes((0,), ((None,),), ("coro", "gen"), (True,), (0, 1), (0,))),
-        "thorough": dict(maxn=3, extra=False, max_chunks=3, free_chunks=3, bound=2, ends=("eof", "reset"),
-                         shapes=mk_shapes((1, 0), ((None,), (TAU,), (0, None)), ("coro",), (True,), (0, 1), (1,))
-                         + mk_shapes((1, 0), ((None,), (TAU,)), ("gen",), (True,), (0,), (0,))
-                         + mk_shapes((2,), ((None, TAU),), ("coro",), (True,), (0, 2), (0,))),
+        "quick": [dict(maxn=2, chunks=(1, 2), free=True, ends=("eof",), nocatch=True,
+                       shapes=mk_shapes((1,), ((None,), (TAU,), (0, None)), ("coro",), (True,), (0,), (1,))
+                       + mk_shapes((0,), ((None,),), ("coro", "gen"), (True,), (0, 1), (0,))),
+                  dict(maxn=3, chunks=(3,), free=False, bound=1, ends=("eof",), midcuts=False,
+                       shapes=mk_shapes((1, 0), ((None,), (TAU,)), ("coro",), (True,), (0,), (1,)))],
+        "thorough": [dict(maxn=2, chunks=(1, 2), free=True, ends=("eof", "reset"), nocatch=True,
+                          shapes=mk_shapes((1, 0), ((None,), (TAU,), (0, None)), ("coro",), (True,), (0, 1), (1,))
+                          + mk_shapes((1, 0), ((None,), (TAU,)), ("gen",), (True,), (0,), (0,))
+                          + mk_shapes((2,), ((None, TAU),), ("coro",), (True,), (0, 2), (0,))),
+                     dict(strings=("ab", "aX", "Xb"), chunks=(3,), free=True, ends=("eof",), midcuts=False,
+                          shapes=mk_shapes((1, 0), ((None,), (TAU,)), ("coro",), (True,), (0,), (1,))
+                          + mk_shapes((1,), ((0, None),), ("coro",), (True,), (0,), (1,))
+                          + mk_shapes((2,), ((None, TAU),), ("coro",), (True,), (0,), (0,))),
+                     dict(maxn=3, chunks=(2, 3), free=False, bound=1, ends=("eof",), midcuts=True, only_len=3,
+                          shapes=mk_shapes((1, 0), ((None,), (TAU,), (0, None)), ("coro",), (True,), (0, 1), (1,))
+                          + mk_shapes((1,), ((None,),), ("gen",), (True,), (0,), (0,)))],
     },
     # timed arrivals x per-yield timeouts
     "time": {
-        "quick": dict(maxn=2, extra=False, max_chunks=2, midcuts=True,
-                      shapes=mk_shapes((1, 0), ((TAU,), (None, TAU), (0, TAU)), ("coro", "gen"), (True,), (0,), (0,))
-                      + mk_shapes((2,), ((TAU,),), ("coro",), (True,), (0, 2), (0,))),
-        "thorough": dict(maxn=3, extra=False, max_chunks=3, midcuts=True,
-                         shapes=mk_shapes((1, 2, 0), ((TAU,), (None, TAU), (TAU, None), (0, TAU)), ("coro", "gen"), (True,), (0, 2), (0,))),
+        "quick": [dict(maxn=2, chunks=(1, 2), midcuts=True, nocatch=True,
+                       shapes=mk_shapes((1, 0), ((TAU,), (None, TAU), (0, TAU)), ("coro", "gen"), (True,), (0,), (0,))
+                       + mk_shapes((2,), ((TAU,),), ("coro",), (True,), (0, 2), (0,)))],
+        "thorough": [dict(maxn=3, chunks=(1, 2, 3), midcuts=True, nocatch=True,
+                          shapes=mk_shapes((1, 0), ((TAU,), (None, TAU), (TAU, None), (0, TAU)), ("coro", "gen"), (True,), (0,), (0,))
+                          + mk_shapes((2,), ((TAU,), (None, TAU)), ("coro",), (True,), (0, 2), (0,)))],
     },
 }
 NOCATCH = {"place": {"k": 0, "taus": (None,), "onconn": "coro", "catch": False, "aclose_at": 0, "work": 1},
@@ -590,7 +600,7 @@ PARTS = {"quick": {"cut": (6, 2), "place": (10, 4), "time": (6, 3)}, "thorough":
 def shapes_for(plan: dict, fam: str, frames: str, api: str) -> list[dict]:
     out = []
     shapes = list(plan["shapes"])
-    if fam in NOCATCH:
+    if plan.get("nocatch") and fam in NOCATCH:
         shapes.append(NOCATCH[fam])
     for sh in shapes:
         if not sh["catch"] and "X" not in frames:
@@ -601,6 +611,15 @@ def shapes_for(plan: dict, fam: str, frames: str, api: str) -> list[dict]:
             continue  # low-level API: no on_connection hook; an exception leaving the callback is the caller's business (C17)
         out.append(sh)
     return out
+
+
+def plan_streams(plan: dict) -> list[dict]:
+    if "strings" in plan:
+        return [{"frames": fs, "cut": None} for fs in plan["strings"]]
+    sts = streams(plan["maxn"], plan.get("extra", False), plan.get("midcuts", True))
+    if plan.get("only_len"):
+        sts = [st for st in sts if len(st["frames"]) == plan["only_len"]]
+    return sts
 
 
 def jobs(tier: str) -> list[dict]:
@@ -617,51 +636,45 @@ def jobs(tier: str) -> list[dict]:
 def configs(job: dict) -> Any:
     """the configurations of one job (a slice of its family's product)"""
     tier, fam, api, proto = job["tier"], job["family"], job["api"], job["proto"]
-    plan = PLAN[fam][tier]
     idx = 0
     base = {"api": api, "proto": proto}
-    for st in streams(plan["maxn"], plan.get("extra", False), plan.get("midcuts", True)):
-        data, _fr = stream_of({"frames": st["frames"], "cut": st["cut"]})
-        n = len(data)
-        for sh in shapes_for(plan, fam, st["frames"], api):
-            if fam == "cut":
-                for ch in chunkings(n, plan["max_cuts"]):
-                    if plan["slim_3cuts"] and len(ch) > 3 and len(set(ch)) > 2:
-                        continue  # quick: 3-cut chunkings only when near-uniform
-                    idx += 1
-                    if idx % job["parts"] != job["part"]:
-                        continue
-                    for end in plan["ends"]:
-                        if end == "reset" and len(ch) > 2:
+    for plan in PLAN[fam][tier]:
+        for st in plan_streams(plan):
+            data, _fr = stream_of({"frames": st["frames"], "cut": st["cut"]})
+            n = len(data)
+            for sh in shapes_for(plan, fam, st["frames"], api):
+                if fam == "cut":
+                    for ch in chunkings(n, plan["max_cuts"]):
+                        if len(st["frames"]) >= plan["slim_from"] and len(ch) > 3 and len(set(ch)) > 2:
+                            continue  # longest streams: 3-cut chunkings only when near-uniform
+                        idx += 1
+                        if idx % job["parts"] != job["part"]:
                             continue
-                        for mrs in plan["mrs"]:
-                            if mrs and (sh["taus"] != (None,) or sh["onconn"] != "coro" or sh["aclose_at"]):
+                        for end in plan["ends"]:
+                            if end == "reset" and len(ch) > 2:
                                 continue
-                            yield {**base, **st, **sh, "chunks": list(ch), "end": end, "place": "none", "bound": 0, "mrs": mrs}
-            elif fam == "place":
-                for ch in chunkings(n, plan["max_chunks"] - 1):
-                    if len(ch) > plan["max_chunks"]:
+                            for mrs in plan["mrs"]:
+                                if mrs and (sh["taus"] != (None,) or sh["onconn"] != "coro" or sh["aclose_at"]):
+                                    continue
+                                yield {**base, **st, **sh, "chunks": list(ch), "end": end, "place": "none", "bound": 0, "mrs": mrs}
+                    continue
+                for ch in chunkings(n, max(plan["chunks"]) - 1):
+                    if len(ch) not in plan["chunks"]:
                         continue
                     idx += 1
                     if idx % job["parts"] != job["part"]:
                         continue
-                    free = len(ch) <= plan["free_chunks"]
-                    for end in plan["ends"]:
-                        if end == "reset" and len(ch) > 1:
-                            continue
-                        yield {**base, **st, **sh, "chunks": list(ch), "end": end, "place": "free" if free else "costed",
-                               "bound": 0 if free else plan["bound"], "max_waits": 1}
-            else:
-                for ch in chunkings(n, plan["max_chunks"] - 1):
-                    if len(ch) > plan["max_chunks"]:
-                        continue
-                    idx += 1
-                    if idx % job["parts"] != job["part"]:
-                        continue
-                    for arr in itertools.product(DELAYS, repeat=len(ch)):
-                        for ed in END_DELAYS:
-                            yield {**base, **st, **sh, "chunks": list(ch), "arrival": list(arr), "end": "eof", "end_delay": ed,
-                                   "place": "none", "bound": 0}
+                    if fam == "place":
+                        for end in plan["ends"]:
+                            if end == "reset" and len(ch) > 1:
+                                continue
+                            yield {**base, **st, **sh, "chunks": list(ch), "end": end, "place": "free" if plan["free"] else "costed",
+                                   "bound": 0 if plan["free"] else plan["bound"], "max_waits": 1}
+                    else:
+                        for arr in itertools.product(DELAYS, repeat=len(ch)):
+                            for ed in END_DELAYS:
+                                yield {**base, **st, **sh, "chunks": list(ch), "arrival": list(arr), "end": "eof", "end_delay": ed,
+                                       "place": "none", "bound": 0}
 
 
 # ---------------------------------------------------------------------------------------------------------
